@@ -2,7 +2,7 @@
 
    For each constructor shape of the model ([new_read] = FC1..FC4, [new_wcoil] = FC5, [new_wreg] = FC6,
    [new_wcoils] = FC15, [new_wregs] = FC16, [new_srvid] = FC17, [new_rw] = FC23; the TCP and RTU
-   constructors of Go share one model constructor, the transaction id is a parameter of the
+   constructors of Go share one model constructor, the transaction id is an argument of the
    encoder) and for ALL arguments: whatever the constructor agrees to build serialises, in both
    framings, to the ADU that Spec.v prescribes for the same arguments (the map from constructor
    arguments to [Spec.sreq] is the constructor-for-constructor one, as in DispPacket.ctor_args),
